@@ -146,10 +146,168 @@ func randGen32(r *rand.Rand, keys []uint64) iset {
 	return s
 }
 
+// ---------------------------------------------------------------- edge-directed universes
+// Shapes inside one chunk that sit on the representation boundaries the container kernels care about
+// (chunk edges 0 / 65535, 64-bit word edges, the 4096 threshold, gaps between runs, full chunks).
+func edgeShape(r *rand.Rand, key uint64) iset {
+	base := key << 16
+	mk := func(pairs ...uint64) iset {
+		var sp []span
+		for i := 0; i+1 < len(pairs); i += 2 {
+			sp = append(sp, span{base + pairs[i], base + pairs[i+1]})
+		}
+		return normalize(sp)
+	}
+	L := uint64(1 + r.Intn(300))
+	switch r.Intn(22) {
+	case 0:
+		return mk(65535-L, 65535) // run ending at the upper edge
+	case 1:
+		return mk(0, L) // run starting at the lower edge
+	case 2:
+		return mk(0, L, 65535-L, 65535)
+	case 3:
+		return mk(0, 0, 65535, 65535)
+	case 4:
+		return mk(63, 64) // straddles a word edge
+	case 5:
+		a := uint64(64 * (1 + r.Intn(1000)))
+		return mk(a-uint64(1+r.Intn(70)), a+uint64(r.Intn(70)))
+	case 6: // several runs with gaps, the last reaching the edge
+		return mk(10, 19, 100, 163, 1000, 1000+L, 4090, 4100, 65535-L, 65535)
+	case 7: // several runs, none at the edges
+		return mk(10, 19, 30, 30, 100, 163, 1000, 1000+L, 4090, 4100, 50000, 50000+5*L)
+	case 8:
+		return mk(0, 65535) // full
+	case 9:
+		return mk(0, 65534) // full but the last
+	case 10:
+		return mk(1, 65535) // full but the first
+	case 11: // exactly 4095 / 4096 / 4097 values as one run
+		n := uint64(4095 + r.Intn(3))
+		lo := uint64(r.Intn(int(65536 - n)))
+		return mk(lo, lo+n-1)
+	case 12: // exactly 4095 / 4096 / 4097 scattered values
+		n := 4095 + r.Intn(3)
+		var sp []span
+		for _, p := range r.Perm(65536)[:n] {
+			sp = append(sp, span{base + uint64(p), base + uint64(p)})
+		}
+		return normalize(sp)
+	case 13: // comb over the whole chunk (32768 runs)
+		var sp []span
+		for v := uint64(r.Intn(2)); v < 65536; v += 2 {
+			sp = append(sp, span{base + v, base + v})
+		}
+		return normalize(sp)
+	case 14: // dense with holes at word edges
+		s := iset{span{base, base + 65535}}
+		return s.minus(mk(63, 64, 4095, 4096, 65535-L, 65535-L))
+	case 15: // a long run crossing many words, ending inside a word
+		a := uint64(r.Intn(30000))
+		return mk(a, a+uint64(100+r.Intn(20000)))
+	case 16: // two long runs separated by a one-value gap
+		a := uint64(1000 + r.Intn(20000))
+		return mk(a-900, a-1, a+1, a+5000)
+	case 17: // upper half
+		return mk(32768, 65535)
+	case 18: // sparse values at the very top
+		return mk(65530, 65530, 65533, 65533, 65535, 65535)
+	default:
+		return chunkShape(r, key)
+	}
+}
+
+// edgeUniverse32: generators assembled from edge shapes on a few (often adjacent) chunk keys; cut points at
+// chunk edges and at the boundaries of the shapes' runs, so that range / neighbour / rank arguments land on them.
+func edgeUniverse32(r *rand.Rand, maxAtoms int) (*Universe, []iset) {
+	for {
+		var keys []uint64
+		k0 := pick(r, []uint64{0, 1, 5, 0x7FFF, 0xFFFD, 0xFFFE, 0xFFFF})
+		keys = append(keys, k0)
+		nextra := r.Intn(3)
+		if nextra+1 < minKeys {
+			nextra = minKeys - 1 + r.Intn(2)
+		}
+		for i := 0; i < nextra; i++ {
+			k := int64(k0) + int64(r.Intn(4+nextra)) - 1
+			if k >= 0 && k <= 0xFFFF {
+				keys = append(keys, uint64(k))
+			}
+		}
+		ng := 2 + r.Intn(2)
+		gens := make([]iset, ng)
+		for i := range gens {
+			for _, k := range keys {
+				if r.Intn(4) != 0 {
+					gens[i] = gens[i].union(edgeShape(r, k))
+				}
+			}
+		}
+		var cuts []uint64
+		add := func(t uint64) {
+			if t <= 0xFFFFFFFF {
+				cuts = append(cuts, t)
+			}
+		}
+		for _, k := range keys {
+			if r.Intn(3) != 0 {
+				add(k << 16)
+			}
+			if r.Intn(3) != 0 {
+				add((k + 1) << 16)
+			}
+		}
+		// boundaries of runs of the generators: start, end+1, and single points at start-1 / end / end+1
+		for i, n := 0, 3+r.Intn(6); i < n; i++ {
+			g := gens[r.Intn(ng)]
+			if g.empty() {
+				continue
+			}
+			sp := g[r.Intn(len(g))]
+			switch r.Intn(6) {
+			case 0:
+				add(sp.lo)
+			case 1:
+				add(sp.hi + 1)
+			case 2:
+				add(sp.hi)
+				add(sp.hi + 1)
+			case 3:
+				if sp.lo > 0 {
+					add(sp.lo - 1)
+				}
+				add(sp.lo)
+			case 4:
+				add(sp.lo)
+				add(sp.lo + 1)
+			default:
+				add(sp.hi + 1)
+				add(sp.hi + 2)
+			}
+		}
+		u, err := vennUniverse(32, cuts, gens)
+		if err != nil {
+			panic(err)
+		}
+		if len(u.Atoms) > maxAtoms {
+			continue
+		}
+		u.computeShifts([]int64{0, 65536, -65536, 1, -1, 65535, -65535})
+		u.Name = fmt.Sprintf("edge/keys=%v", keys)
+		return u, gens
+	}
+}
+
 // randUniverse32 draws generators + cut points and returns the Venn universe.
+var minKeys = 1
+
 func randUniverse32(r *rand.Rand, maxAtoms int) (*Universe, []iset) {
 	for {
 		nk := 1 + r.Intn(4)
+		if nk < minKeys {
+			nk = minKeys + r.Intn(2)
+		}
 		keys := randKeys(r, nk)
 		ng := 2 + r.Intn(2)
 		gens := make([]iset, ng)
@@ -294,10 +452,13 @@ func profile(name string) Profile {
 		set(2, "Flip")
 	case "sharing": // C07
 		set(6, alg...)
-		set(6, agg...)
-		set(5, "Clone", "FlipS", "AddOffset", "SetCOW")
+		set(4, agg...)
+		set(8, "Clone")
+		set(4, "FlipS", "AddOffset", "SetCOW")
 		set(8, "Add", "Remove", "CheckedAdd", "CheckedRemove")
-		set(3, "AddRange", "RemoveRange", "Flip", "AddMany", "RunOptimize", "Detach")
+		set(4, "AddRange", "RemoveRange", "Flip", "AddMany")
+		set(2, "RunOptimize", "Detach")
+		set(4, "Build")
 	case "serial": // C05 / C06 / C13
 		set(8, "Ser", "Load", "Freeze", "FrozenRT", "LoadLegal")
 		set(4, "WriteFail")
@@ -924,6 +1085,19 @@ func concretise(st Structure, kind string, r *rand.Rand, bits int) (*Concretisat
 	}
 	if bits == 32 && tot > top {
 		return nil, fmt.Errorf("structure too wide")
+	}
+	if kind != "top" && kind != "chunks" && kind != "keyspread" && kind != "periodic" && r.Intn(2) == 0 {
+		// align one cell boundary (start of cell c, 1 <= c <= m) with a chunk edge: the atoms before it end at
+		// low bits 0xFFFF, those after it start at 0x0000
+		c := 1 + r.Intn(m)
+		var before uint64
+		for i := 0; i < c; i++ {
+			before += widths[i]
+		}
+		k := (base + before + 65535) >> 16
+		if k<<16 >= before && (k<<16)-before+tot <= top {
+			base = k<<16 - before
+		}
 	}
 	if bits == 64 && kind != "top" {
 		// place the structure relative to the 2^32 grid: inside a bucket, straddling a bucket edge,
